@@ -59,7 +59,7 @@ def check(res) -> list[tuple[str, str]]:
         if len(l) != 1:
             out.append(("sequence-number-reassigned", f"message {i} carried sequence numbers {l}"))
         for s in l:
-            if s in seen_seq and seen_seq[s] != i:
+            if s in seen_seq and seen_seq[s] != i and sum(1 for k, _ in out if k == "sequence-number-shared") < 3:
                 out.append(("sequence-number-shared", f"messages {seen_seq[s]} and {i} both carry {s}"))
             seen_seq[s] = i
     for r in res.received:
@@ -73,7 +73,7 @@ def check(res) -> list[tuple[str, str]]:
         l = wire.setdefault(a["id"], [])
         if a["seq"] not in l:
             l.append(a["seq"])
-        if owner.setdefault(a["seq"], a["id"]) != a["id"]:
+        if owner.setdefault(a["seq"], a["id"]) != a["id"] and sum(1 for k, _ in out if k == "sequence-number-shared") < 3:
             out.append(("sequence-number-shared", f"attempts of messages {owner[a['seq']]} and {a['id']} both "
                                                   f"carried {a['seq']}"))
     for i, l in sorted(wire.items()):
